@@ -78,7 +78,8 @@ func runC04(c *mon.Ctx) {
 					v[i] = new(big.Int).Exp(big.NewInt(int64(i)), big.NewInt(255), ref.R)
 				}
 			}
-			lv := toFr(v)
+			// the polynomial lives in a larger backing array (polynomials stored back to back): spare capacity behind it
+			lv, lvChk := spareFr(toFr(v))
 			comm := env.Conf.Commit(lv)
 			cref, _ := ElemToRef(&comm)
 			coeffs := ref.Interpolate(v)
@@ -109,6 +110,10 @@ func runC04(c *mon.Ctx) {
 						copy(lv, snap)
 						break
 					}
+				}
+				if !lvChk() {
+					c.Fail("input-modified/CreateIPAProof/spare-capacity", "CreateIPAProof (or Commit) wrote into the memory behind the caller's polynomial slice (append on a caller's slice)", nil)
+					lv, lvChk = spareFr(snap)
 				}
 				pch := ptr.ChallengeScalar([]byte("state"))
 				if names[pi] == "255" {
@@ -214,7 +219,7 @@ func runC04(c *mon.Ctx) {
 func c04poison(env *Env, comm *banderwagon.Element, pr ipa.IPAProof, lv []fr.Element, zf fr.Element, rng *rand.Rand) {
 	for k := 0; k < 2; k++ {
 		bad := ipa.IPAProof{A_scalar: pr.A_scalar, L: append([]banderwagon.Element(nil), pr.L...), R: append([]banderwagon.Element(nil), pr.R...)}
-		switch rng.Intn(5) {
+		switch rng.Intn(7) {
 		case 0:
 			bad.L, bad.R = bad.L[:7], bad.R[:7]
 		case 1:
@@ -223,8 +228,11 @@ func c04poison(env *Env, comm *banderwagon.Element, pr ipa.IPAProof, lv []fr.Ele
 			bad.L, bad.R = nil, nil
 		case 3:
 			bad.R = bad.R[:5]
-		default:
+		case 4:
 			mon.Try(func() { ipa.CreateIPAProof(common.NewTranscript("c04"), env.Conf, *comm, lv[:255], zf) })
+			continue
+		default:
+			fieldEdgeCalls(env, rng)
 			continue
 		}
 		mon.Try(func() { ipa.CheckIPAProof(common.NewTranscript("c04"), env.Conf, *comm, bad, zf, pr.A_scalar) })
